@@ -204,13 +204,14 @@ def check_c05(run):
     run.selftest()
     run_api_families(run, setter_families(run), keys="std", spmodes="late,early", params=False)
     run_traces(run, salt=5, parse_only=10)
+    run_scan(run, salt=5, setter_pct=100, keep_quick=25000, explore_quick=800000)
     run.assumptions.append("histories over the value alphabets of DESIGN.md 4/C05 (chosen to hit every guard and early return of each setter); arbitrary string values only through recorded random traces")
     return run.finish("model_checking", "all setter histories up to the tree depth over the value alphabets x 17 start URLs, plus the closure of the URL "
                       "records under a seed-chosen op sub-alphabet (every transition replayed as path-to-source + op); a case is distinct by the "
                       "expected state of all handles after the last step")
 
 
-REFS = ["", "#f", "?q", "a", "/a", "//h2/x", "../..", "x:o", "\\a", "http:b", "file:c", ".", "C|/z", "//1.2.3.4:0", "?", "#"]
+REFS = ["", "#f", "?q", "a", "/a", "//h2/x", "../..", "x:o", "\\a", "http:b", "file:c", ".", "C|/z", "//1.2.3.4:0", "?", "#", "?r#g"]
 SP_NAMES = ["", "a", "b", "a&b", "c=d", "+", " ", "%", "%41", "\u00e9", "#", "~", "a b"]
 SP_VALUES = ["", "1", "x y", "&", "=", "+", "%2B", "\u00e9", "'", "#"]
 SP_STARTS = ["http://h/?b=2&a=1&b=3", "http://h/p", "x:o?a=1", "http://h/?a+b=c%20d&&=x", "x://h/?%41=%2B&a=1%2B1", "m:o ?q#f", "http://h/?", "http://h/?a=1#f"]
@@ -263,7 +264,8 @@ def check_c03(run):
         absorb(run, M, S, fam.name)
     # after setters: the expected state carries the expected re-parse (the standard's own exceptions are computed, not hard-coded)
     run_api_families(run, setter_families(run, with_rt=True), keys="std", spmodes="late,early", params=False)
-    run_traces(run, salt=3, pinned=["http://a\u2260b/"])
+    run_traces(run, salt=3, pinned=["http://a\u2260b/", "http://Xn--pokxncvks.example/", "wss://XN--nxasmq6b.a_b/", "file://%58N--a.pt/p"])   # F21; ACE labels the mapping rejects (an accepted one would not re-parse)
+    run_scan(run, salt=3, setter_pct=40, keep_quick=20000, explore_quick=700000)
     run.assumptions.append("the standard's own non-round-tripping states (file + non-normalized drive letter, file://localhost via protocol setter) are computed by the specification per state; the code must then behave exactly as the standard does")
     return run.finish("model_checking", "every terminal state of the parse families is re-parsed on the real code (identity demanded; TLC checks the same "
                       "invariant on the specification), and every state of the setter trees/closure carries the specification's expected re-parse "
@@ -284,6 +286,7 @@ def check_c04(run):
             f.maxlen = 3
     run_parse_families(run, fams, keys="shape")
     run_traces(run, salt=4)
+    run_scan(run, salt=4, setter_pct=50, keep_quick=20000, explore_quick=700000)
     run.assumptions.append("WellFormed/Composition/Derived are TLC invariants on every reachable specification state; the code is held to them through equality of the full projection (19 getters) with the specification state")
     return run.finish("model_checking", "closure and bounded trees of the object machine (setters, resolve of further references, clone) plus parse families; "
                       "TLC checks WellFormed, ComponentsOk, CompositionG, DerivedG on every state; every state is replayed and all 19 getters compared; "
@@ -327,6 +330,7 @@ def check_c19(run):
     S, M, st = run.tlc_replay(mod, fam.name, cfg=mod + ".cfg", replay_args=["--keys", "derived,hostname,port,href", "--spmodes", "late", "--parser", "lax_host"])
     absorb(run, M, S, fam.name)
     run_traces(run, salt=19, parse_only=20)
+    run_scan(run, salt=19, setter_pct=50, keep_quick=20000, explore_quick=700000)
     return run.finish("model_checking", "the derived accessors are functions of the primary components in the specification (DerivedG checked by TLC on "
                       "every state); histories of parse / resolve / setter / clone are replayed and IsIPv4, IsIPv6, DecodedPort, Scheme, Query, Fragment, "
                       "OpaquePath, IsSpecialScheme, Href(true) compared after every step; distinct = distinct expected final states")
@@ -386,8 +390,12 @@ def check_c11(run):
     # two-byte sequence next to them): raw invalid bytes never reach the list parser (the URL parser replaces them first), escapes do
     toks = ["%FF", "%80", "%E2%82", "%C3%A9", "%C3", "a", "=", "&"]
     esc = ["http://h/?" + "".join(w) for k in range(1, 4 if run.tier == "quick" else 5) for w in itertools.product(toks, repeat=k)]
+    # ESCAPED delimiters (%3D %26 %2B %25 %20 in either hex case) next to literal ones: splitting at '&' and at the first '=' happens on the raw
+    # text, before any decoding - an escaped '=' or '&' belongs to the name / value it stands in
+    dtoks = ["%3D", "%3d", "%26", "%2B", "%25", "%20", "=", "&", "+", "k"]
+    escd = ["http://h/?" + "".join(w) for k in range(1, 4 if run.tier == "quick" else 5) for w in itertools.product(dtoks, repeat=k)]
     run_api_families(run, [ApiFamily("formparse", starts, depth=1, with_law=True), ApiFamily("formparse_deep", deep, depth=1, with_law=True),
-                           ApiFamily("formparse_bytes", esc, depth=1, with_law=True)],
+                           ApiFamily("formparse_bytes", esc, depth=1, with_law=True), ApiFamily("formparse_escdelims", escd, depth=1, with_law=True)],
                      keys="href,query,search", spmodes="early")
     run.assumptions += ["invalid UTF-8 bytes in a stored name/value count as U+FFFD, one per byte (only bytes 0x80 and 0xFF are generated, where Go's per-byte "
                         "rule and the standard's maximal-subpart rule agree)",
@@ -440,7 +448,7 @@ def check_c13(run):
             setters.append(extra)
     starts = ["http://u:p@h:8/a/b?q=1#f", "x://h/a?b=2", "file:///C:/d?x", "m:o?a=1", "m:o  #f", "m:o  ?q#f", "http://h/p?#", "x://@h?"]   # incl. empty-but-present components
     fams = [
-        ApiFamily("indep_d3", starts, setter_ops=setters, sp_ops=sp_ops(names, values, with_sort=False) + [("sort", "", ""), ("iterappend", "", "z"), ("iterfirst", "", "w")], refs=["x", "?n=1", "#g", "//o/p?r", "http:n", "http:#k", "file:n"],     # incl. references that repeat the base's scheme and are otherwise relative
+        ApiFamily("indep_d3", starts, setter_ops=setters, sp_ops=sp_ops(names, values, with_sort=False) + [("sort", "", ""), ("iterappend", "", "z"), ("iterfirst", "", "w")], refs=["x", "?n=1", "#g", "//o/p?r", "http:n", "http:#k", "file:n", "?n=1#g"],     # incl. references that repeat the base's scheme and are otherwise relative
                   depth=3 if q else 4, nh=3, clone=True, properties=("Independence",),
                   xfer_ops=[("copy", "c", "d"), ("live", "", ""), ("fresh", "n", "1")], det_ops=[("append", "x", "y"), ("sort", "", "")]),
     ]
@@ -478,6 +486,13 @@ def absorb_events(run, bad, family):
     for ev, verdicts in bad:
         rest = []
         for v in verdicts:
+            if v.startswith("note:"):
+                # information about drift between specification and code on something no listed property demands: counted, never a verdict
+                d = run.coverage_notes.setdefault("spec_drift_notes", {}).setdefault(v[:140], {"count": 0, "examples": []})
+                d["count"] += 1
+                if len(d["examples"]) < 8:
+                    d["examples"].append(describe_event(ev, [])[:160])
+                continue
             key = "%s|%s|%s" % (ev.get("k"), ev.get("opt") or ev.get("prof") or ev.get("call") or "", v[:90])
             tally[key] = tally.get(key, 0) + 1
             kf = findings.match(run.prop, {"what": "event", "event": ev, "verdict": v})
@@ -621,6 +636,9 @@ def check_c08(run):
 
 C09_BASES = ["example.com", "a-b.c", "localhost", "x_y.z", "a.b.", "\u00fcber.de", "fa\u00df.de", "\uff21\uff22.com", "a\u00adb.c", "\u4e2d.cn",
              "xn--bcher-kva.de", "\u0131.com", "a\u200db.c", "\u05d0.il", "1.2.3.4", "a.1", "\uff11.\uff12.3.4", "\u212a.com", "a\u3002b"]
+# ACE labels the IDNA mapping REJECTS (invalid punycode; a valid label next to an STD3-disallowed character), first and last label: every spelling
+# of the prefix (Xn--, xN--, %58n--, x%4E--) must be rejected alike (the ASCII fallback of domain-to-ASCII must not depend on the prefix's case)
+C09_ACE_BASES = ["xn--pokxncvks.example", "xn--a.pt", "xn--nxasmq6b.a_b", "a.xn--pokxncvks", "xn--bcher-kva.a_b", "xn--.com"]
 
 
 def check_c09(run):
@@ -639,7 +657,7 @@ def check_c09(run):
     ]
     run_host_families(run, fams, keys="std")
     # relational part: spelling classes, including non-ASCII labels (no IDNA table needed for a relation)
-    bases = C09_BASES if not q else r.sample(C09_BASES, 10) + ["localhost"]
+    bases = (C09_BASES if not q else r.sample(C09_BASES, 9) + ["localhost"]) + (C09_ACE_BASES if not q else C09_ACE_BASES[:3] + r.sample(C09_ACE_BASES[3:], 1))
     cls = HostFamily("domclass", mode="class", basehosts=bases, maxvar=2 if q else 3, frames=[("https://", "/"), ("file://", "/x")], invariants=["ClassInv"])
     run_host_families(run, [cls], keys="std")
     # the pipeline AROUND ToASCII on mapped characters (full-width % / digits / dots, ideographic full stop, soft hyphen, ZWJ, sharp s, ...):
@@ -846,8 +864,11 @@ def check_c20(run):
                 fams.append({"name": "base+ref:%s|%s|%s" % (pre, u1, u2), "prefix": [], "unit": cps(u2), "suffix": cps("x"), "base": cps(pre), "baseunit": cps(u1), "op": "parse"})
     for pre, u1, u2 in [("http://", "a", "@"), ("http://", "@", "a"), ("http://", "a:", "@"), ("http://h/?", "a=b&", "a=c&"), ("http://", "a.", "1."), ("http://[", "1:", "::")]:
         fams.append({"name": "two-phase:%s|%s|%s" % (pre, u1, u2), "prefix": cps(pre), "unit": cps(u1), "unit2": cps(u2), "suffix": cps("h/"), "base": [], "op": "parse"})
-    for name, p, u, s in [("sp-many-params", "http://h/?", "a=b&", ""), ("sp-long-value", "http://h/?a=", "v", "")]:
+    for name, p, u, s in [("sp-many-params", "http://h/?", "a=b&", ""), ("sp-long-value", "http://h/?a=", "v", ""), ("sp-two-names", "http://h/?", "a=1&b=2&", ""),
+                          ("sp-dups-then-other", "http://h/?c=0&", "a=1&", "&b=2"), ("sp-escaped-names", "http://h/?", "%61=1&b=%32&", "")]:
         fams.append({"name": name, "prefix": cps(p), "unit": cps(u), "suffix": cps(s), "base": [], "op": "searchparams"})
+        if name in ("sp-two-names", "sp-dups-then-other"):
+            fams[-1]["cpun"] = 32768     # in-place list surgery moves 32-byte pairs: quadratic element moves only reach the CPU floor beyond ~200 k pairs
     for name, u in [("set-plain", "a"), ("set-slashes", "a/"), ("set-at", "@"), ("set-pct", "%41"), ("set-amp", "a=b&")]:
         fams.append({"name": name, "prefix": [], "unit": cps(u), "suffix": [], "base": [], "op": "setters"})
     for prof in ("WhatWg", "WhatWgSortQuery", "GoogleSafeBrowsing", "Semantic"):
